@@ -35,7 +35,9 @@ RULE = ('one run = one simulated hand on one of the 11 hand-history variants (si
         'are left out of the action list and must be completed to the played hand. Operation commentary (words separated by runs of blanks, tabs, #, '
         'quotes, backslashes) is part of the compared player actions; commentary on dealing and chip-moving steps and on no-operations '
         'interleaved by the scheduler (fault note_interleaved) is written as note lines of its own and the sequence of notes must '
-        'replay unchanged. non-trivial = hand with >= 8 action lines; distinct = distinct '
+        'replay unchanged. In half of the runs the loaded history is also replayed with a scheduler-chosen subset of the default '
+        'automations (HandHistory(automations=...)), so that the replay itself has to complete forced bets, collections, burns, '
+        'run-out selection, hand killing, pushing and pulling, and must reach the same actions, cards, stacks and payoffs. non-trivial = hand with >= 8 action lines; distinct = distinct '
         '(variant, chip type, compression, fault plan, action-verb sequence) digests')
 ASSUMPTIONS = [
     'strings exclude control characters, the sequence \'\'\' and a trailing quote (TOML literal strings cannot carry them)',
@@ -157,6 +159,23 @@ def replay_to_end(hh, what):
         raise Violation('C16.replay', f'{what}: replaying the loaded history failed: {type(e).__name__}: {e}; actions '
                         f'{hh.actions}', rule='replay', exc=type(e).__name__)
     return state
+
+
+def replay_with_fewer_automations(ch, st, hh, ctx):
+    """The reader of a history may replay it with fewer automations than the default (`HandHistory(automations=...)`): the
+    mechanical steps no automation performs are then completed by the replay itself - forced bets, collections, burns,
+    run-out selection, hand killing, pushing and pulling - and the hand must come out the same."""
+    import dataclasses
+    default = hh.automations
+    mask = ch.pick('c16.replay_autos.mask', 1 << len(default))
+    subset = tuple(a for k, a in enumerate(default) if mask >> k & 1)
+    if len(subset) == len(default):
+        return
+    h = dataclasses.replace(hh, automations=subset)
+    what = 'replay with automations ' + ('{' + ', '.join(a.name for a in subset) + '}')
+    end = replay_to_end(h, what)
+    compare(st, end, what)
+    ctx.count('replays_with_fewer_automations')
 
 
 def several_in_one_file(ch, hh, ctx):
@@ -367,6 +386,8 @@ def run(ch, ctx):
                                 f'{sorted(h.user_defined_fields)}, the hand was saved with {sorted(supplied)}', rule='user_fields')
         end = replay_to_end(hh2, 'terminal history')
         compare(st, end, 'terminal history')
+        if ch.chance('c16.replay_autos', 1, 2):
+            replay_with_fewer_automations(ch, st, hh2, ctx)
         if ch.chance('c16.inf', 1, 3):
             inf_variant(ch, st, hh, zt.zeroed, cfg, ctx)
         if ch.chance('c16.file', 1, 3):
